@@ -296,8 +296,8 @@ class MLETomographyAlgorithm:
         # Compute partial trace
         dim = int(choi.shape[0] ** 0.5)
         partial_trace = choi.reshape(np.tile([dim, dim], 2))
-        partial_trace = np.einsum(partial_trace, [0, 1, 2, 1])
+        partial_trace = np.einsum(partial_trace, [0, 1, 0, 3])
         partial_trace = partial_trace.reshape(dim, dim)
         # Then find the variation and subtract this from the choi matrix
         variation = partial_trace - np.identity(dim)
-        return choi - np.kron(variation / dim, np.identity(dim))
+        return choi - np.kron(np.identity(dim), variation / dim)
